@@ -3,7 +3,9 @@
  *
  * cases: [0, NMATRIX)        systematic matrix: one mini-run per
  *                            (element size, xtor mode, start state, size variant, op, argument class, failpoint)
- *        [NMATRIX, ...)      seeded random histories over 1-2 vectors
+ *        [.., +NSWAPCELLS)   swap cells: two differently initialised vectors (element size x element size x
+ *                            start state x start state x xtor pairing), swapped and used afterwards
+ *        [.., ...)           seeded random histories over 1-2 vectors (independent element size / xtor mode)
  *
  * Oracle (after every call, audit_all): size == model, cap >= size, data() is a
  * live library block with room for (cap+1)*elem bytes (128-bit), in-range bytes
@@ -55,14 +57,24 @@ struct vm {
     unsigned char *live;        /* per-slot state: 0 dead, 1 live */
     size_t livecap;
     uint64_t serial;            /* content generator */
+    size_t es;                  /* element size this (logical) vector was initialised with */
+    int xmode;                  /* and its constructor/destructor mode; priv is the address of this struct */
 };
 static struct cstl_vector V[2];
 static struct vm MOD[2];
 static struct vm *mod[2];       /* mod[i] is the reference of V[i] (swap exchanges them) */
+/* parameters of the vector currently operated on / audited (loaded from its reference by use_mod):
+ * swap exchanges whole objects, so element size, xtor mode and priv travel with the contents */
 static size_t es;
-static int xmode, nvec, keyspace;
+static int xmode, has_cons, has_dest;
+static int nvec, keyspace;
 static size_t live0;
-static int has_cons, has_dest;
+static void use_mod(const struct vm *m)
+{
+    es = m->es; xmode = m->xmode;
+    has_cons = xmode == X_BOTH || xmode == X_CONS;
+    has_dest = xmode == X_BOTH || xmode == X_DEST;
+}
 
 /* context of the call in flight (violation keys, callbacks) */
 static const char *cur_op = "none";
@@ -225,6 +237,7 @@ static void audit_vec(int vi, size_t known, const char *bytes_oracle)
     unsigned char *d = cstl_vector_data(v);
     size_t i, bsz = 0;
 
+    use_mod(m);
     VRT_COUNT("op.size"); VRT_COUNT("op.capacity"); VRT_COUNT("op.data");
     CHK(n == m->n, "size", "size() is %zu, reference %zu", n, m->n);
     CHK(cap >= n, "cap-below-size", "capacity %zu < size %zu", cap, n);
@@ -335,25 +348,26 @@ static void init_by_macro(struct cstl_vector *v, size_t esz)
     VRT_COUNT("init.DECLARE_CSTL_VECTOR");
 }
 
-static void st_create(size_t esz, int xm, int nv, int ks)
+static void st_create2(size_t es0, int xm0, size_t es1, int xm1, int nv, int ks)
 {
     int i;
-    es = esz; xmode = xm; nvec = nv; keyspace = ks;
-    has_cons = xm == X_BOTH || xm == X_CONS;
-    has_dest = xm == X_BOTH || xm == X_DEST;
+    nvec = nv; keyspace = ks;
     live0 = vrt_lib_live();
-    vrt_rng_seed(&rand_rng, 0x72616e64, esz * 64 + xm * 8 + nv);
+    vrt_rng_seed(&rand_rng, 0x72616e64, (es0 * 64 + xm0 * 8 + nv) * 1024 + es1 * 4 + xm1);
     for (i = 0; i < nv; i++) {
         memset(&MOD[i], 0, sizeof(MOD[i]));
         mod[i] = &MOD[i];
+        MOD[i].es = i ? es1 : es0; MOD[i].xmode = i ? xm1 : xm0;
+        use_mod(mod[i]);
         need_model(mod[i], 8);
         memset(&V[i], 0x5a, sizeof(V[i]));
-        if (xm == X_NONE && i == 0 && ks == 0) init_by_macro(&V[i], es);
-        else if (xm == X_NONE && i == 0) { cstl_vector_init(&V[i], es); VRT_COUNT("init.cstl_vector_init"); }
+        if (xmode == X_NONE && i == 0 && ks == 0) init_by_macro(&V[i], es);
+        else if (xmode == X_NONE && i == 0) { cstl_vector_init(&V[i], es); VRT_COUNT("init.cstl_vector_init"); }
         else cstl_vector_init_complex(&V[i], es, has_cons ? cons_cb : NULL, has_dest ? dest_cb : NULL, &MOD[i]);
     }
     cur_op = "init"; cur_state = "fresh";
 }
+static void st_create(size_t esz, int xm, int nv, int ks) { st_create2(esz, xm, esz, xm, nv, ks); }
 static void st_destroy(void)
 {
     int i;
@@ -390,8 +404,9 @@ static void scan_events(int *refused, int *failed, int *genuine)
 static int arg_value(int cls, int vi, vrt_rng *g, int hundreds_ok, size_t *out)
 {
     const size_t n = mod[vi]->n, cap = cstl_vector_capacity(&V[vi]);
-    const size_t lim = vrt_alloc_cap / es;      /* (lim)*es <= alloc cap < (lim+1)*es */
-    const size_t md = SIZE_MAX / es;
+    const size_t lim = vrt_alloc_cap / mod[vi]->es;     /* (lim)*es <= alloc cap < (lim+1)*es */
+    const size_t md = SIZE_MAX / mod[vi]->es;
+    use_mod(mod[vi]);
     switch (cls) {
     case A_ZERO: *out = 0; return 1;
     case A_ONE: *out = 1; return 1;
@@ -428,6 +443,7 @@ static int arg_value(int cls, int vi, vrt_rng *g, int hundreds_ok, size_t *out)
 
 static void begin_op(int kind, int vi, int cls)
 {
+    use_mod(mod[vi]);
     cur_op = kname[kind];
     cur_state = state_class(vi);
     vrt_state(cur_state);
@@ -441,7 +457,7 @@ static int op_reserve(int vi, size_t req, int cls, int fp)
     struct cstl_vector *v = &V[vi];
     const size_t n0 = mod[vi]->n, cap0 = cstl_vector_capacity(v);
     void *const d0 = cstl_vector_data(v);
-    const u128 need = ((u128)req + 1) * es;
+    const u128 need = ((u128)req + 1) * mod[vi]->es;
     int sat = req <= cap0 || (!fp && need <= vrt_alloc_cap);
     int ab, refused, failed, genuine;
     size_t cap1;
@@ -484,7 +500,7 @@ static int op_resize(int vi, size_t req, int cls, int fp)
     struct vm *m = mod[vi];
     const size_t n0 = m->n, cap0 = cstl_vector_capacity(v);
     void *const d0 = cstl_vector_data(v);
-    const u128 need = ((u128)req + 1) * es;
+    const u128 need = ((u128)req + 1) * mod[vi]->es;
     volatile int sat = req <= cap0 || (!fp && need <= vrt_alloc_cap);
     int ab, refused, failed, genuine;
     size_t known, i;
@@ -622,17 +638,29 @@ static int op_clear(int vi)
     return 1;
 }
 
-static int op_swap(void)
+static int op_swap(int first)
 {
+    /* the whole object is exchanged: element size, constructor, destructor, priv, buffer, size, capacity.
+     * The references change places with it (priv is the address of the reference, so it follows). */
     struct vm *t;
+    const char *s0, *s1;
+    uint64_t h;
     if (nvec < 2) return 0;
+    s0 = state_class(0); s1 = state_class(1);
     begin_op(K_SWAP, 0, -1);
-    VRT_OP0("vector.swap", "swap(v0, v1)");
+    h = vrt_mix(vrt_mix(vrt_mix(vrt_mix(vrt_mix(0xC095, mod[0]->es), mod[1]->es), state_index(s0)), state_index(s1)), first);
+    vrt_sig(0, h);
+    vrt_sig(1, vrt_mix(vrt_mix(h, mod[0]->xmode), mod[1]->xmode + 8));
+    VRT_OP4("vector.swap", "swap(v%ld, v%ld)  [elem %ld <-> elem %ld]", first, 1 - first, mod[first]->es, mod[1 - first]->es);
     cb_expect(0, CB_NONE, 0, 0);
-    cstl_vector_swap(&V[0], &V[1]);
-    t = mod[0]; mod[0] = mod[1]; mod[1] = t;
+    cstl_vector_swap(&V[first], &V[1 - first]);
     VRT_COUNT("op.swap");
     if (mod[0]->n != mod[1]->n) VRT_COUNT("swap.different-sizes");
+    if (mod[0]->es != mod[1]->es) VRT_COUNT("swap.different-element-sizes");
+    if (mod[0]->xmode != mod[1]->xmode) VRT_COUNT("swap.different-xtor-modes");
+    if (s0[1] == 'r' || s1[1] == 'r') VRT_COUNT("swap.with-never-allocated-vector");
+    if (s0 != s1) VRT_COUNT("swap.different-state-classes");
+    t = mod[0]; mod[0] = mod[1]; mod[1] = t;
     audit_all(0, mod[0]->n, "swap.bytes");
     return 1;
 }
@@ -764,6 +792,57 @@ static void run_matrix(uint64_t idx)
     st_destroy();
 }
 
+/* ---- swap cells: two differently initialised vectors in every pair of start states ---- */
+static const int xpair[4][2] = { { X_NONE, X_BOTH }, { X_BOTH, X_BOTH }, { X_CONS, X_DEST }, { X_BOTH, X_NONE } };
+#define NSWAPCELLS ((uint64_t)NES * NES * NS * NS * 4)
+static void build_state(int vi, int st, size_t base)
+{
+    switch (st) {
+    case S_FRESH: break;
+    case S_EMPTY: op_resize(vi, base, A_SMALL, 0); op_resize(vi, 0, A_ZERO, 0); break;
+    case S_FULL: op_resize(vi, base, A_SMALL, 0); op_shrink(vi, 0); break;
+    case S_SLACK: op_reserve(vi, base + 1 + base / 2, A_SMALL, 0); op_resize(vi, base, A_SMALL, 0); break;
+    }
+}
+static void run_swapcell(uint64_t idx)
+{
+    vrt_rng g;
+    int xp, st0, st1, e0, e1, i;
+    xp = idx % 4; idx /= 4;
+    st1 = idx % NS; idx /= NS;
+    st0 = idx % NS; idx /= NS;
+    e1 = idx % NES; idx /= NES;
+    e0 = (int)idx;
+    vrt_rng_seed(&g, vrt_seed, 0xC095000 + e0 * 64 + e1 * 8 + st0 * 4 + st1);
+    vrt_case_note("swap cell v0: elem=%zu xtor=%s state=%s; v1: elem=%zu xtor=%s state=%s", ESZ[e0], xname[xpair[xp][0]],
+                  sname[st0], ESZ[e1], xname[xpair[xp][1]], sname[st1]);
+    st_create2(ESZ[e0], xpair[xp][0], ESZ[e1], xpair[xp][1], 2, 3);
+    build_state(0, st0, 4 + vrt_below(&g, 9));
+    build_state(1, st1, 4 + vrt_below(&g, 9));
+    op_swap(xp & 1);
+    /* both objects must be working vectors of their NEW element size / xtors */
+    for (i = 0; i < 2; i++) {
+        op_resize(i, mod[i]->n + 2, A_SIZE_P1, 0);
+        op_sort(i, 4);
+        op_reverse(i);
+        op_at(i, mod[i]->n, A_SIZE, 0);
+        if (mod[i]->n > 1) op_resize(i, mod[i]->n - 1, A_SIZE_M1, 0);
+        op_shrink(i, 0);
+    }
+    op_swap(0);
+    op_resize(1, mod[1]->n + 1, A_SIZE_P1, 0);
+    op_resize(0, 0, A_ZERO, 0);
+    op_swap(1);
+    op_clear(0);
+    op_swap(0);
+    op_clear(0);
+    op_clear(1);
+    CHK(vrt_lib_live() == live0, "alloc.leak-at-end", "%zu library blocks still live after clearing every vector",
+        vrt_lib_live() - live0);
+    st_destroy();
+    VRT_COUNT("swap.cells");
+}
+
 /* ---- random histories ---- */
 static int pick_class(vrt_rng *g, int op)
 {
@@ -784,18 +863,24 @@ static int pick_class(vrt_rng *g, int op)
 static void run_random(uint64_t idx)
 {
     vrt_rng g;
-    int e, xm, nv, ks, nops, i, big;
+    int e, xm, e1, xm1, nv, ks, nops, i, big;
     vrt_rng_seed(&g, vrt_seed, 0xC090000 + idx);
     e = vrt_below(&g, NES);
     xm = vrt_below(&g, 8); xm = xm < 3 ? X_NONE : xm < 6 ? X_BOTH : xm == 6 ? X_CONS : X_DEST;
     nv = 1 + vrt_below(&g, 2);
+    e1 = e; xm1 = xm;
+    if (nv == 2 && vrt_chance(&g, 2, 3)) {
+        /* two differently initialised vectors: swap exchanges element size and xtors too */
+        e1 = vrt_below(&g, NES);
+        xm1 = vrt_below(&g, 8); xm1 = xm1 < 3 ? X_NONE : xm1 < 6 ? X_BOTH : xm1 == 6 ? X_CONS : X_DEST;
+    }
     ks = vrt_chance(&g, 1, 2) ? 0 : 2 + vrt_below(&g, 5);
     big = idx % 5 == 0;
     nops = (vrt_thorough ? 400 : 200) + vrt_below(&g, vrt_thorough ? 1100 : 500);
     if (big) nops = nops / 4 + 40;
-    vrt_case_note("random elem=%zu xtor=%s vectors=%d keyspace=%d sizes=%s ops=%d", ESZ[e], xname[xm], nv, ks,
-                  big ? "up-to-4000" : "small", nops);
-    st_create(ESZ[e], xm, nv, ks);
+    vrt_case_note("random v0: elem=%zu xtor=%s; v1: elem=%zu xtor=%s; vectors=%d keyspace=%d sizes=%s ops=%d",
+                  ESZ[e], xname[xm], ESZ[e1], xname[xm1], nv, ks, big ? "up-to-4000" : "small", nops);
+    st_create2(ESZ[e], xm, ESZ[e1], xm1, nv, ks);
     for (i = 0; i < nops; i++) {
         int vi = vrt_below(&g, nv), r = vrt_below(&g, 100), cls, fp;
         size_t req;
@@ -813,7 +898,7 @@ static void run_random(uint64_t idx)
             if (arg_value(cls, vi, &g, 1, &req)) op_at(vi, req, cls, 1);
         } else if (r < 73) op_shrink(vi, vrt_chance(&g, 1, 5));
         else if (r < 76) op_clear(vi);
-        else if (r < 84) op_swap();
+        else if (r < 84) op_swap(vrt_below(&g, 2));
         else if (r < 92) op_sort(vi, vrt_below(&g, 5));
         else op_reverse(vi);
     }
@@ -825,11 +910,12 @@ static void run_random(uint64_t idx)
 }
 
 static uint64_t nrandom(void) { return vrt_thorough ? 30000 : 6000; }
-static uint64_t ncases(void) { return NMATRIX + nrandom(); }
+static uint64_t ncases(void) { return NMATRIX + NSWAPCELLS + nrandom(); }
 static void run_case(uint64_t idx)
 {
     if (idx < NMATRIX) run_matrix(idx);
-    else run_random(idx - NMATRIX);
+    else if (idx < NMATRIX + NSWAPCELLS) run_swapcell(idx - NMATRIX);
+    else run_random(idx - NMATRIX - NSWAPCELLS);
 }
 static void winit(void)
 {
@@ -846,6 +932,8 @@ static const char *const required[] = {
     "op.reserve.arg.first-above-alloc-cap", "op.reserve.arg.largest-below-alloc-cap", "op.reserve.arg.bytes-wrap-to-small",
     "op.at.arg.size", "op.at.arg.SIZE_MAX", "op.at_const.arg.size", "at.wrapping-index-probes",
     "op.shrink_to_fit", "op.clear", "op.swap", "op.sort", "op.reverse",
+    "swap.different-element-sizes", "swap.different-xtor-modes", "swap.with-never-allocated-vector",
+    "swap.different-state-classes", "swap.different-sizes", "swap.cells",
     "abort.resize.expected", "abort.resize.observed", "abort.resize.byte-count-unrepresentable",
     "abort.resize.allocator-cap-refused", "abort.resize.failpoint", "abort.resize.reaudited-after-abort",
     "abort.at.expected", "abort.at.observed",
